@@ -14,8 +14,10 @@ namespace traffic {
 // defined value sets (bidib.org tables)
 static const uint8_t CS_STATES[] = {0x00, 0x01, 0x02, 0x03, 0x04, 0x08, 0x09, 0x0D};
 static const uint8_t BOOST_STATES[] = {0x00, 0x01, 0x02, 0x03, 0x04, 0x05, 0x06, 0x80, 0x81, 0x82, 0x83, 0x84};
-static const uint8_t BOOST_STATES_ERROR[] = {0x01, 0x02, 0x83};        // short, hot, stop request: the "error" variants
-static const uint8_t BOOST_STATES_OK[] = {0x00, 0x03, 0x04, 0x05, 0x06, 0x80, 0x81, 0x82, 0x84};
+// only the codes whose classification nobody disputes: short circuit / overheated = error; plain on / off
+// (also by local key, go request) = no error. NOPOWER, NO_DCC, ON_LIMIT, ON_HOT, ON_STOP_REQ are left out.
+static const uint8_t BOOST_STATES_ERROR[] = {0x01, 0x02};
+static const uint8_t BOOST_STATES_OK[] = {0x00, 0x04, 0x05, 0x80, 0x84};
 static const uint8_t SYS_ERRORS[] = {0x00, 0x01, 0x02, 0x03, 0x04, 0x05, 0x10, 0x11, 0x12, 0x13, 0x14, 0x15, 0x16, 0x20, 0x21, 0x30};
 
 struct Hints {
